@@ -281,7 +281,7 @@ class BaseGroupBy(ABC):
         result = self._grouper.nth(self._values_to_group, n)
         return (
             result
-            if isinstance(result, pd.Series)
+            if isinstance(result, (pd.Series, pd.DataFrame))
             else pd.Series(result, name=self._obj.name)
         )
 
@@ -302,7 +302,7 @@ class BaseGroupBy(ABC):
         result = self._grouper.head(self._values_to_group, n)
         return (
             result
-            if isinstance(result, pd.Series)
+            if isinstance(result, (pd.Series, pd.DataFrame))
             else pd.Series(result, name=self._obj.name)
         )
 
@@ -323,7 +323,7 @@ class BaseGroupBy(ABC):
         result = self._grouper.tail(self._values_to_group, n)
         return (
             result
-            if isinstance(result, pd.Series)
+            if isinstance(result, (pd.Series, pd.DataFrame))
             else pd.Series(result, name=self._obj.name)
         )
 
